@@ -117,7 +117,7 @@ def run(shard, tier, seed):
 
     @hypothesis.seed(env.subseed(seed, ID, shard["i"]))
     @settings(max_examples=cnt, deadline=None, database=None, suppress_health_check=list(hypothesis.HealthCheck), phases=[hypothesis.Phase.generate])
-    @given(st.one_of(st.integers(1, 40), st.integers(1, 300)), st.randoms(use_true_random=False), st.binary(max_size=4))
+    @given(st.one_of(st.integers(1, 40), st.integers(1, 300)), st.randoms(use_true_random=True), st.binary(max_size=4))
     def prop(n, rnd, salt):
         lst = ids(n, salt)
         root = check_list(res, M, lst, "orig")
